@@ -240,7 +240,10 @@ def subtreeRows (s : State) (n : Nat) : List Row :=
 the object layer issues -/
 def opOk (l : Loader) : Op → Bool
   | .attach fi _ seg =>
-    (l[fi]?).isSome && (scanIds seg).Nodup && (scanIds seg).all (fun k => !(allIdsB l).contains k)
+    (match l[fi]? with
+     | some f => (seg.map (·.nid)).Nodup && seg.all (fun e => !(f.tree.map (·.nid)).contains e.nid)
+     | none => false) &&
+    (scanIds seg).Nodup && (scanIds seg).all (fun k => !(allIdsB l).contains k)
   | .detach fi seg =>
     match l[fi]? with
     | some f => seg.all (f.tree.contains ·)
